@@ -84,7 +84,7 @@ def run(ctx, prop, bias):
     # 5. implementation layer (model drift, never a verdict): the runs of the TLC-exported scripts must also be behaviours of
     #    Attack.tla itself, with its internal actions as silent steps (AttackImplTrace.tla)
     drift_cases = 0
-    if not ctx.violations and prop in ("C02", "C03"):
+    if not ctx.violations and (prop == "C03" or (prop == "C02" and ctx.thorough)):
         small = [c for c in cases if '"script":"{' in c[1][0] and int(json.loads(c[1][0]).get("id", 1 << 30)) < summ["exported"]]
         if not ctx.thorough:
             small = small[::4]
